@@ -15,19 +15,22 @@ from vlib.runner import Violation, code_under_test, digest
 
 PROPERTY_ID = "C06"
 LEVEL = "exploration"
-RULE = ("layout: 1..10 areas (subregions, directly built candidate clusters of 1..3 protoclusters, or protoclusters "
-        "sent through record.create_candidate_clusters()) on linear and circular records of 8..3000 bases; every arc "
-        "is placed by construction relative to an earlier one (overlapping its head/tail, touching, one base apart, "
-        "nested, same start/end, identical) or freely with boundary-biased coordinates, sizes from a small/medium/"
-        "huge mixture, origin-crossing and whole-record arcs on circular records, insertion order permuted; after "
-        "create_regions the regions are compared with the connected components of 'areas overlap' computed on the "
-        "set-of-bases model, then the areas are cleared/re-created in one of four ways and compared again. "
-        "layout_enum: EVERY multiset of <=3 (quick) / <=4 (thorough, small L) arcs on rings and lines up to a bound. "
-        "history: a Hypothesis RuleBasedStateMachine over one record (add_cds, add_protocluster, add_subregion, "
-        "create_candidate_clusters, create_regions, clear_regions, clear_candidate_clusters, clear_subregions, "
-        "clear_protoclusters, strip_antismash_annotations), numbering / lookup / parent-link invariants after every "
-        "step. Non-trivial layout: >=3 areas in >=2 components with at least one overlap, or an origin-crossing area; "
-        "non-trivial history: a clear followed by a create with areas present; distinct = sha1 of the canonical spec.")
+RULE = ("layout: 1..11 areas (subregions incl. sideloaded ones, directly built candidate clusters of 1..2 protoclusters, "
+        "or protoclusters sent through record.create_candidate_clusters()) on linear and circular records of 8..3000 "
+        "bases; every arc is placed by construction relative to an earlier one (overlapping its head/tail, touching, "
+        "one to three bases apart, nested, same start/end, identical) or freely with boundary-biased coordinates, sizes "
+        "from a small/medium/huge mixture, origin-crossing and whole-record arcs on circular records, insertion order "
+        "permuted; after create_regions the regions are compared with the connected components of 'areas overlap' "
+        "computed on the set-of-bases model, then the areas are cleared/re-created in one of four ways and compared "
+        "again, and (manual) the components' regions are handed to add_region in another order. "
+        "layout_enum: EVERY multiset of <=3 arcs on rings and lines up to a length bound, and of 4 arcs up to a smaller "
+        "bound (coverage.bounds). history: a Hypothesis RuleBasedStateMachine over one record (add_cds, "
+        "add_protocluster, add_subregion, create_candidate_clusters, create_regions, clear_regions, "
+        "clear_candidate_clusters, clear_subregions, clear_protoclusters, strip_antismash_annotations; 50 steps), "
+        "numbering / lookup / parent-link invariants after every step; history_mix: the same histories drawn as plain "
+        "data with state-aware weights. Non-trivial layout: >=3 areas in >=2 components with at least one overlap, or "
+        "an origin-crossing area; non-trivial history: a clear followed by a (re)creation of regions with areas "
+        "present; distinct = sha1 of the canonical spec (enumerated cases are distinct by construction).")
 ASSUMPTIONS = [
     "the meaning of an area is the set of bases of its location as antiSMASH reports it (vlib/ring.py, checked by C04); "
     "candidate cluster locations are taken from the objects, how they are derived from protoclusters is C05's business",
@@ -98,7 +101,7 @@ def _area_snapshot(record, length: int, circular: bool) -> dict:
     """ what the signatures and a reader need to judge a failure: the area set itself """
     areas = [{"t": "cand", "parts": _plain(_loc(c))} for c in record.get_candidate_clusters()]
     areas += [{"t": "sub", "parts": _plain(_loc(s))} for s in record.get_subregions()]
-    return {"L": length, "circular": circular, "areas": areas[:24]}
+    return {"L": length, "circular": circular, "areas": areas}
 
 
 def _run(clause: str, func, info=None):
